@@ -149,3 +149,10 @@ Theorem C12_label_hover_has_the_label_as_range : forall p k sc rngs i c r,
   exists j, nth_error rngs j = Some r /\ contains_pos r p = true /\ (i + j < length (bk_labels sc))%nat /\ c = hover_label (i + j) k sc.
 Proof. exact label_hover_range_is_the_label. Qed.
 Print Assumptions C12_label_hover_has_the_label_as_range.
+
+(* at any nesting depth: whenever body-level hover returns data, its range is the extent of an attribute, the type keyword
+   of a block or one of a block's labels written in the file, and it contains the cursor *)
+Theorem C12_hover_range_is_an_attribute_a_type_keyword_or_a_label : forall p b bs c r,
+  hover_body p b bs = HHover c r -> In r (hover_item_ranges b) /\ contains_pos r p = true.
+Proof. exact hover_range_is_an_item. Qed.
+Print Assumptions C12_hover_range_is_an_attribute_a_type_keyword_or_a_label.
